@@ -357,6 +357,16 @@ def contractBefore (b : Bal) (t : ContractTx) : (Status × Bal) ⊕ (Bal × Nat 
         if ((get b1 t.src : Nat) : Int) < ((raw * gasPrice : Nat) : Int) + v then .inl (.failed, b1)
         else .inr (b1, raw, v)
 
+/-- Charging a gas fee: clamp `gasUsed * price` to the balance, debit the sender, credit the fee account.
+    Transcribes both `deductGasFee` (core/vmexecutor.go) and the fee step of `contractExecutor.Execute`. -/
+def chargeGas (b : Bal) (src : Addr) (gasUsed : Nat) : Bal :=
+  let want := gasUsed * gasPrice
+  let fee := if get b src < want then get b src else want
+  addBal (subBal b src fee).1 feeAccount fee
+
+/-- `deductGasFee` (core/vmexecutor.go) -/
+def deductGasFee (b : Bal) (src : Addr) (gasUsed : Nat) : Bal := chargeGas b src gasUsed
+
 /-- `contractExecutor.Execute`. Returns the state, success flag, and the new `context["gasUsed"]`
     (`none` = this call did not assign it). -/
 def contractExecute (code : Code) (fuel : Nat) (t : ContractTx) (raw : Nat) (v : Int) (s : St) :
@@ -366,26 +376,21 @@ def contractExecute (code : Code) (fuel : Nat) (t : ContractTx) (raw : Nat) (v :
   let r := match t.target with
     | none => evmCreateTop code fuel t.src v t.init s
     | some a => evmCallTop code fuel t.src a v s
-  let want : Nat := t.gasUsed * gasPrice
-  -- gasFeeUsed is clamped to the sender's balance (second `fix:` commit of known-findings.txt), then
-  -- accountdb.SubBalance(source, gasFeeUsed) — result dropped — and AddBalance(FeeAccount, gasFeeUsed)
-  let feeUsed : Nat := if get r.1.bal t.src < want then get r.1.bal t.src else want
-  let b2 := addBal (subBal r.1.bal t.src feeUsed).1 feeAccount feeUsed
+  -- gasFeeUsed = gasUsed * price, clamped to the sender's balance (second `fix:` commit of
+  -- known-findings.txt), SubBalance(source) — result dropped — and AddBalance(FeeAccount): the same three
+  -- steps as `deductGasFee` in core/vmexecutor.go, hence the same model function
+  let b2 := chargeGas r.1.bal t.src t.gasUsed
   ({ r.1 with bal := b2 }, r.2, some t.gasUsed)
-
-/-- `deductGasFee` (core/vmexecutor.go): clamp to the balance, debit, credit the fee account. -/
-def deductGasFee (b : Bal) (src : Addr) (gasUsed : Nat) : Bal :=
-  let want := gasUsed * gasPrice
-  let fee := if get b src < want then get b src else want
-  addBal (subBal b src fee).1 feeAccount fee
 
 /-! ### Stake lock and refund at ledger level -/
 
-/-- Ledger effect of `MinerManager.AddStake` / `AddMiner`: `stake = Float64ToBigInt(float64(n))`
-    (exact for n < 2^53, which the driver requires), balance test, then `SubBalance(addr, stake)`.
-    `registryOk` stands for every non-ledger test of those functions (C20 models them). -/
-def lockStake (b : Bal) (src : Addr) (n : Nat) (registryOk : Bool) : Option Bal :=
-  let stake := n * wei
+/-- `utility.Float64ToBigInt(float64(n))` for a stake of `n` whole tokens: exact for n < 2^53
+    (the driver refuses larger ones). -/
+def stakeOf (n : Nat) : Nat := n * wei
+
+/-- Ledger effect of `MinerManager.AddStake` / `AddMiner` for a stake of `stake` wei: balance test, then
+    `SubBalance(addr, stake)`. `registryOk` stands for every non-ledger test of those functions (C20 models them). -/
+def lockStake (b : Bal) (src : Addr) (stake : Nat) (registryOk : Bool) : Option Bal :=
   if get b src < stake then none
   else if !registryOk then none
   else some (subBal b src stake).1
@@ -400,7 +405,7 @@ def refundMove (b : Bal) : List (Addr × Nat) → Bal
 inductive Tx where
   | operator (src : Addr) (dataOk : Bool) (targets : List (Addr × Amount))
   | contract (t : ContractTx)
-  | lock (src : Addr) (n : Nat) (registryOk : Bool)      -- miner apply / add-stake transactions
+  | lock (src : Addr) (stake : Nat) (registryOk : Bool)  -- miner apply / add-stake transactions (stake in wei)
 
 /-- Block-scoped executor context: `context["gasUsed"]` is never cleared between transactions. -/
 structure Ctx where
@@ -455,14 +460,15 @@ def dropCode : Code → List Addr → Code
   | [], _ => []
   | (k, s) :: r, dead => if dead.contains k then dropCode r dead else (k, s) :: dropCode r dead
 
-def execBlockAux (fuel : Nat) : World → List Tx → List Status → World × List Status
-  | w, [], acc => (w, acc.reverse)
-  | w, t :: ts, acc =>
+def execTxs (fuel : Nat) : World → List Tx → World × List Status
+  | w, [] => (w, [])
+  | w, t :: ts =>
     let r := execTx fuel w t
-    execBlockAux fuel r.1 ts (r.2 :: acc)
+    let r2 := execTxs fuel r.1 ts
+    (r2.1, r.2 :: r2.2)
 
 def execBlock (fuel : Nat) (w : World) (txs : List Tx) : World × List Status :=
-  let r := execBlockAux fuel { w with ctx := { gasUsed := none } } txs []
+  let r := execTxs fuel { w with ctx := { gasUsed := none } } txs
   let w' := r.1
   ({ w' with code := dropCode w'.code w'.st.dead, st := { w'.st with dead := [] } }, r.2)
 
